@@ -10,6 +10,7 @@ import (
 
 	"verifharness/hx"
 
+	"github.com/iotaledger/hive.go/runtime/options"
 	"github.com/iotaledger/hive.go/runtime/workerpool"
 )
 
@@ -103,7 +104,15 @@ func (t *gtree) exec(r *result, op string) string {
 		if !t.isGroup(a) {
 			return "skip"
 		}
-		t.nodes = append(t.nodes, &gnode{parent: a, pool: t.nodes[a].group.CreatePool(name, workerpool.WithWorkerCount(2))})
+		// explicit options vary with the node index: worker count 1..3, cancel option absent / true / false
+		opts := []options.Option[workerpool.WorkerPool]{workerpool.WithWorkerCount(1 + len(t.nodes)%3)}
+		switch len(t.nodes) % 3 {
+		case 1:
+			opts = append(opts, workerpool.WithCancelPendingTasksOnShutdown(true))
+		case 2:
+			opts = append(opts, workerpool.WithCancelPendingTasksOnShutdown(false))
+		}
+		t.nodes = append(t.nodes, &gnode{parent: a, pool: t.nodes[a].group.CreatePool(name, opts...)})
 	case "inc":
 		if !t.isPool(a) {
 			return "skip"
